@@ -131,6 +131,23 @@ class FastOneHotEncode(Contract):
     def rejects(self, a, cfg):
         return O.exists_box([a.seq.shape[0]], lambda i: O.eq(a.mapping[a.seq[i]], -2))
 
+    def random_inputs(self, cfg, rng):
+        """(bounds-checked replay, vf/boundscheck.py) a byte string over a small alphabet + ignore set, legal bytes only"""
+        import numpy
+        m = rng.randint(1, 5)
+        letters = rng.sample(range(33, 127), m + 2)
+        mapping = numpy.zeros(256, dtype='int8') - 2
+        for i, b in enumerate(letters[:m]):
+            mapping[b] = i
+        for b in letters[m:]:
+            mapping[b] = -1
+        n = rng.randint(0, 7)
+        seq = numpy.array([rng.choice(letters) for _ in range(n)], dtype='int8')
+        return [numpy.zeros((n, m), dtype='int8'), seq, mapping], {}
+
+    def show_inputs(self, args, kwargs):
+        return '_fast_one_hot_encode(zeros%s, seq=%s, mapping with columns %s)' % (tuple(args[0].shape), args[1].tolist(), sorted(set(args[2].tolist())))
+
     def result(self, a, cfg):
         return None
 
